@@ -22,6 +22,8 @@ type lexCase struct {
 	InputHex  string          `json:"input_hex,omitempty"` // set when the input is not valid UTF-8 (JSON cannot carry it)
 	ExtraNext int             `json:"extra_next,omitempty"`
 	Text      string          `json:"rules_text,omitempty"`
+	// C03: several inputs (hex) whose lexers are alive at the same time and advanced in turns
+	InputsHex []string `json:"inputs_hex,omitempty"`
 }
 
 func (c *lexCase) fix() {
@@ -272,10 +274,14 @@ func propC03(t *rapid.T, r *vstat.Run) {
 			return
 		}
 		r.Count("definitions")
+		together := &lexCase{RS: g.RS, Text: g.RS.String()}
 		for i := 0; i < 8; i++ {
 			c := newLexCase(g.RS, g.GenInput(t))
 			report(t, r, checkC03(c, def, r), c)
+			together.InputsHex = append(together.InputsHex, fmt.Sprintf("%x", c.Input))
 		}
+		r.Count("definitions_lexed_by_several_live_lexers")
+		report(t, r, checkC03Together(together, def), together)
 	}
 }
 
@@ -294,8 +300,20 @@ func replayLex(t *testing.T, id string, check func(c *lexCase, def *lexer.Statef
 	})
 }
 
+// checkC03Together: the token stream of an input is the one the rules define whatever other lexers of the same
+// definition are doing: all inputs are lexed by lexers that are alive together and advanced in turns, out of step
+// (each stream was compared with the reference lexer when it was lexed alone).
+func checkC03Together(c *lexCase, def *lexer.StatefulDefinition) outcome {
+	return checkC15Lex(&c15Case{RS: c.RS, InputsHex: c.InputsHex, Filename: "f"}, def, nil)
+}
+
 func TestC03Replay(t *testing.T) {
-	replayLex(t, "C03", func(c *lexCase, def *lexer.StatefulDefinition) outcome { return checkC03(c, def, nil) })
+	replayLex(t, "C03", func(c *lexCase, def *lexer.StatefulDefinition) outcome {
+		if len(c.InputsHex) > 0 {
+			return checkC03Together(c, def)
+		}
+		return checkC03(c, def, nil)
+	})
 }
 
 // ---------------------------------------------------------------------------------------------
